@@ -189,6 +189,16 @@ def install(mode, solver="glpk"):
         _rebind(cobra.util.solver, "float", Float)
         _rebind(cobra.util.solver, "Basic", basic)
         _rebind(cobra.core.model, "Basic", basic)
+        import sys as _sys
+        import cobra.summary
+        import cobra.flux_analysis
+        import cobra.medium
+        import cobra.manipulation
+        # float(x) anywhere in cobra is the identity on proxies (a change to cobrapy that adds a float() call
+        # must not turn into a harness error); isinstance(x, float) keeps working through the metaclass
+        for name, mod in list(_sys.modules.items()):
+            if name.startswith("cobra.") and mod is not None and "float" not in vars(mod) and not name.startswith("cobra.io.sbml"):
+                _rebind(mod, "float", Float)
         import cobra.io.json
         import cobra.io.yaml
         _rebind(cobra.io.json, "json", TextStub("json"))
